@@ -87,7 +87,16 @@ def _honest(ctx, proto, role, inst, n_inter, seed, alen, stray=False):
     if stray:
         rt, pl = STRAYS[(seed + alen) % len(STRAYS)]
         sp = (rt, pl, rng.bytes(1 + (alen * 3) % 200))
-    ctl = S.run(ctx.variant, proto, role, honest, inst=inst, n_inter=n_inter, seed=seed, app=app, idle=30.0, stray=sp)
+    # every second interoperability case: the honest script picks, among 48 nonces, the signature with the shortest DER encoding
+    # (ServerKeyExchange as server, CertificateVerify as client) - valid signatures of 69 bytes and fewer are otherwise 1 in 500
+    short = stray and (seed + alen) % 2 == 0
+    S.SHORT_SIG_TRIES = 48 if short else 0
+    try:
+        ctl = S.run(ctx.variant, proto, role, honest, inst=inst, n_inter=n_inter, seed=seed, app=app, idle=30.0, stray=sp)
+    finally:
+        S.SHORT_SIG_TRIES = 0
+    if short:
+        ctx.note("short-signature-search")
     if sp is not None and ctl.get("stray") is not None:
         reads = ctl["stray"]
         if not any(r[0] == "timeout" for r in reads):
